@@ -52,6 +52,7 @@ Inductive attack :=
 | AKey                          (* another issuer key *)
 | AAlter (pos : nat) (x : N)    (* proof byte pos XOR x *)
 | APrefix (pos : nat) (x : N)   (* byte pos of the keyset's output prefix XOR x *)
+| AAddQ (pos : nat)             (* the response chunk at byte pos replaced by the encoding of value + group order *)
 | AForge (fam : N) (cR : list nat) (sup : list N) (pads : list nat).
    (* a structurally crafted proof (family fam, see harness/c17/forge.go) whose payload reveals cR ++ pads,
       presented with the messages sup *)
@@ -67,6 +68,7 @@ Record case := {
   c_sigpfx : list N; c_pfx : list N;      (* observed prefix of the signature / of the derived proof *)
   c_gd : N;                               (* generators h0, h_1.. pairwise distinct: 0 not observed, 1 yes, 2 no *)
   c_tr : list (list nat * nat * list N);   (* padding bits, extra messages, observed challenge-input labels *)
+  c_q : N;                                (* the curve library's group order (0: not observed) *)
   c_strict : bool;                        (* verified through the proof suite (credential level) *)
   c_cred : option cred_obs;
   c_att : list (attack * verdict) }.
@@ -78,13 +80,14 @@ Definition list_bool_eqb (a b : list bool) : bool :=
 
 Definition bump (changed : bool) (a : N) : N := if changed then zadd a 1 else a.
 
-(* responses of an altered proof: chunk j unchanged -> the honest response, otherwise a different scalar *)
+(* responses of an altered proof: chunk j stands for the same scalar (same value modulo the group order) -> the honest
+   response, otherwise a different scalar *)
 Fixpoint diff_resp (old new : list (list N)) (rs : list N) : list N :=
   match new with
   | [] => []
   | c :: nr =>
       match old, rs with
-      | o :: orr, r :: rr => bump (negb (list_N_eqb o c)) r :: diff_resp orr nr rr
+      | o :: orr, r :: rr => bump (negb (N.eqb (fr_value o) (fr_value c))) r :: diff_resp orr nr rr
       | _, _ => 1 :: diff_resp [] nr []
       end
   end.
@@ -177,6 +180,7 @@ Definition check_case (c : case) : bool :=
   | None => false
   end &&
   N.eqb (c_len c) (expected_len n hidden) &&
+  (N.eqb (c_q c) 0 || N.eqb (c_q c) group_order) &&
   match c_cred c with Some cr => check_cred n (c_payload c) cr | None => true end &&
   Bool.eqb (c_intact c) (list_N_eqb (proof_after_verify Fixed (c_proof c)) (c_proof c)) &&
   (* the signature carries the signing key's output prefix; the wrapper's DeriveProof (only the signing key's
@@ -215,6 +219,7 @@ Definition check_case (c : case) : bool :=
       Nat.eqb n' n && list_bool_eqb bits (mask_of (8 * bv_len n) (c_R c)) &&
       N.eqb (l_len1 L) 116 && N.eqb (g_n (l_vc1 L)) 2 && N.eqb (g_n (l_vc2 L)) (N.of_nat (2 + hidden)) &&
       Nat.eqb (length (g_trail (l_vc1 L))) 0 && Nat.eqb (length (g_trail (l_vc2 L))) 0 &&
+      layout_canonical Fixed L &&
       list_N_eqb (layout_bytes L) rest
   | _, None => false
   end &&
@@ -223,6 +228,33 @@ Definition check_case (c : case) : bool :=
   | None => false
   | Some pf =>
       let rv := select mask msgs in
+      (* the verdict on other proof bytes: the model parses them itself; a chunk that differs from the honest one
+         stands for a different element (sampled assumption for points; for canonical scalars: canonical_encoding_unique) *)
+      let of_bytes (bs' : list N) : verdict :=
+              match lay with
+              | None => VPanic (* alterations need the proof bytes *)
+              | Some (_, _, _, L) =>
+                  match parse_payload bs' with
+                  | None => VReject
+                  | Some (n', bits', rest') =>
+                      match parse_sigproof Fixed rest' with
+                      | PErr => VReject
+                      | PPanic => VPanic
+                      | POk L' =>
+                          if negb (layout_canonical Fixed L') then VReject else
+                          let pf' := {|
+                            p_count := n'; p_mask := bits';
+                            p_aprime := bump (negb (list_N_eqb (l_aprime L) (l_aprime L'))) (p_aprime pf);
+                            p_abar := bump (negb (list_N_eqb (l_abar L) (l_abar L'))) (p_abar pf);
+                            p_d := bump (negb (list_N_eqb (l_d L) (l_d L'))) (p_d pf);
+                            p_c1 := bump (negb (list_N_eqb (g_commit (l_vc1 L)) (g_commit (l_vc1 L')))) (p_c1 pf);
+                            p_r1 := diff_resp (g_resp (l_vc1 L)) (g_resp (l_vc1 L')) (p_r1 pf);
+                            p_c2 := bump (negb (list_N_eqb (g_commit (l_vc2 L)) (g_commit (l_vc2 L')))) (p_c2 pf);
+                            p_r2 := diff_resp (g_resp (l_vc2 L)) (g_resp (l_vc2 L')) (p_r2 pf) |} in
+                          zverify_g (c_strict c) Fixed x pf' nonce rv
+                      end
+                  end
+              end in
       forallb (fun '(a, obs) =>
         let pred :=
           match a with
@@ -241,30 +273,8 @@ Definition check_case (c : case) : bool :=
                 (forge fam x pf (zmix seed 1) (zmix seed 4) (fun i => zmix seed (N.of_nat i + 10))
                        (fun i => zmix seed (N.of_nat i + 500)) nonce n cR pads (map m_of sup))
                 nonce (map m_of sup)
-          | AAlter pos xm =>
-              match lay with
-              | None => VPanic (* alterations need the proof bytes *)
-              | Some (_, _, _, L) =>
-                  match parse_payload (alter pos xm (c_proof c)) with
-                  | None => VReject
-                  | Some (n', bits', rest') =>
-                      match parse_sigproof Fixed rest' with
-                      | PErr => VReject
-                      | PPanic => VPanic
-                      | POk L' =>
-                          let pf' := {|
-                            p_count := n'; p_mask := bits';
-                            p_aprime := bump (negb (list_N_eqb (l_aprime L) (l_aprime L'))) (p_aprime pf);
-                            p_abar := bump (negb (list_N_eqb (l_abar L) (l_abar L'))) (p_abar pf);
-                            p_d := bump (negb (list_N_eqb (l_d L) (l_d L'))) (p_d pf);
-                            p_c1 := bump (negb (list_N_eqb (g_commit (l_vc1 L)) (g_commit (l_vc1 L')))) (p_c1 pf);
-                            p_r1 := diff_resp (g_resp (l_vc1 L)) (g_resp (l_vc1 L')) (p_r1 pf);
-                            p_c2 := bump (negb (list_N_eqb (g_commit (l_vc2 L)) (g_commit (l_vc2 L')))) (p_c2 pf);
-                            p_r2 := diff_resp (g_resp (l_vc2 L)) (g_resp (l_vc2 L')) (p_r2 pf) |} in
-                          zverify_g (c_strict c) Fixed x pf' nonce rv
-                      end
-                  end
-              end
+          | AAlter pos xm => of_bytes (alter pos xm (c_proof c))
+          | AAddQ pos => of_bytes (addq_at pos (c_proof c))
           end in
         verdict_eqb pred obs) (c_att c)
   end.
